@@ -40,11 +40,18 @@ pub fn bias_for(_prop: &str, cfg: &str) -> GenBias {
 pub fn runs_for(prop: &str, tier: &str) -> u64 {
     let quick = match prop {
         "C03" => 12_000,
-        "C17" => 6_000,
+        "C17" => 10_000,
+        "C14" => 32_000,
+        "C02" => 20_000,
         _ => 16_000,
     };
     if tier == "thorough" {
-        quick * 40
+        // thorough: 40 x the historical quick sizes (C17 6 000, others as above but C14/C02 16 000)
+        match prop {
+            "C17" => 240_000,
+            "C14" | "C02" => 640_000,
+            _ => quick * 40,
+        }
     } else {
         quick
     }
